@@ -33,6 +33,7 @@ ASSUME = [
     "element states are well-formed trees (an attribute needs its element, an element its parent) in which every child named by a catalogue path is unique among its siblings; repeated children (a:p, a:r, c:ser, a:gs, c:dLbl) are outside the state model and reached only through the anchor chosen by the harness",
     "getters that call get_or_add (paragraph alignment/level, DataLabels.show_*) are modelled by their value; their own insertion of an empty element is C12's subject (the harness reads every property once before the initial snapshot)",
     "ColorFormat is modelled for the colour kinds srgbClr / schemeClr / none",
+    "what a placeholder inherits (the readings left / top / width / height of its base placeholder, another element that an assignment history does not touch) enters the model as pseudo attributes ~base@left .. ~base@height, taken once by the harness before the history; an attribute is absent when the base reports None or there is no base",
     "oracle-only properties (tx/c09_oracle_only.json) are judged by the direct oracle only",
     "get_set is proved as get (set v t) = quantize v with quantize the translated conversion; the bound |quantize v - v| <= quantum is proved for EMU (exact), centipoints (Font.size, paragraph spacing in points), ST_Percentage (crop, gradient stop, lumMod/lumOff: C09_percentage_quantum) and ST_Angle (rotation: C09_angle_quantum) for every accepted value; for line spacing in lines, gradient angle (ST_PositiveFixedAngle), adjustments and xsd:double attributes it is checked bit-exactly on threshold grids only",
     "binary64 arithmetic is the exact model lib/PyFloat.v (error bounds of rounding, product and quotient proved in proofs/Props_proofs.v); that CPython computes the same is validated bit-exactly, not proved",
@@ -1109,6 +1110,65 @@ def compare_history(kind, case, outs, st1, mo):
     return None
 
 
+def placeholder_scenarios(kind):
+    """(name, prepare(prs), ops): placeholder states that separate the order of evaluation of
+    _InheritsDimensions._set_dimension (own values and base readings first, then the assignment, then the
+    write-backs in the order left, top, width, height) -- correspondence only, the oracle does not judge them"""
+    from lxml import etree
+    A = "{http://schemas.openxmlformats.org/drawingml/2006/main}"
+    P = {p.attr: p for p in kind.props}
+
+    def bases(prs):
+        out, b = [], kind.nav(prs)._base_placeholder
+        while b is not None:
+            out.append(b._element)
+            b = b._base_placeholder if hasattr(type(b), "_base_placeholder") else None
+        return out
+
+    def off_x_only(prs):
+        off = etree.SubElement(kind.nav(prs)._element.spPr.get_or_add_xfrm(), A + "off")
+        off.set("x", "5")
+
+    def ext_cx_text(prs):
+        ext = etree.SubElement(kind.nav(prs)._element.spPr.get_or_add_xfrm(), A + "ext")
+        ext.set("cx", "abc")
+        ext.set("cy", "7")
+
+    def base_cx_negative(prs):
+        for e in bases(prs):
+            if e.spPr.xfrm is not None and e.spPr.xfrm.ext is not None:
+                e.spPr.xfrm.ext.set("cx", "-3")
+
+    def base_without(tag):
+        def f(prs):
+            for e in bases(prs):
+                x = e.spPr.xfrm
+                if x is None:
+                    continue
+                if tag is None:
+                    e.spPr.remove(x)
+                elif x.find(A + tag) is not None:
+                    x.remove(x.find(A + tag))
+        return f
+
+    both = lambda prs: (off_x_only(prs), ext_cx_text(prs))
+    sc = [
+        ("a:off without y, width assigned", off_x_only, [("width", 914400), ("left", 3)]),
+        ("a:off without y, top assigned", off_x_only, [("top", 1), ("width", 5)]),
+        ("base cx refused, left assigned", base_cx_negative, [("left", 1), ("height", 10), ("width", 7), ("left", 2)]),
+        ("base cx refused, width assigned first", base_cx_negative, [("width", 1), ("left", 2)]),
+        ("no base reading", base_without(None), [("left", 5), ("height", 9), ("top", "abc")]),
+        ("base without a:ext, left assigned", base_without("ext"), [("left", 5), ("width", 9), ("top", -10**15)]),
+        ("base without a:ext, height assigned", base_without("ext"), [("height", 5), ("top", 1)]),
+        ("base without a:off, width assigned", base_without("off"), [("width", 5), ("left", 1)]),
+        ("own cx unreadable, left assigned", ext_cx_text, [("left", 1), ("width", 3), ("left", 4)]),
+        ("own y missing and cx unreadable, top assigned", both, [("top", 1)]),
+        ("own y missing and cx unreadable, height assigned", both, [("height", 1)]),
+        ("refused, then accepted", lambda prs: None, [("left", "abc"), ("left", -27273042329601), ("width", -1), ("left", 7), ("top", 1.5), ("height", True)]),
+    ]
+    return [(n, prep, [(P[a], v) for a, v in ops if a in P and P[a].label]) for n, prep, ops in sc]
+
+
 # ------------------------------------------------------------------ corpus
 def corpus_objects(rng, limit):
     """(kind name, deck path, navigator) for objects of the corpus decks."""
@@ -1350,6 +1410,25 @@ def run(ck, tier, rng):
             stats["history_ops"] += len(ops)
             ck.count((k.name, case[1], case[2]), len(ops) >= 2, "history:" + k.name)
 
+    # ---- placeholder geometry: prepared states that separate the order of evaluation of _set_dimension
+    kph = by_name.get("placeholder")
+    stats["prepared"] = 0
+    if kph is not None and any(p.label for p in kph.props):
+        for name, prep, ops in placeholder_scenarios(kph):
+            try:
+                prs_ = kph.build()
+                prep(prs_)
+                case, outs, st1 = run_history(kph, ops, prs=prs_, nav=kph.nav)
+            except Exception as e:  # noqa
+                ck.notes.append("prepared placeholder history crashed (%s): %r" % (name, e))
+                continue
+            cases.append(case)
+            expect.append((kph, outs, st1, "prepared: " + name))
+            stats["histories"] += 1
+            stats["prepared"] += 1
+            stats["history_ops"] += len(ops)
+            ck.count((kph.name, name, case[1], case[2]), True, "history-prepared:placeholder")
+
     # ---- corpus decks
     from pptx import Presentation
     objs, ndecks = corpus_objects(rng, 60 if quick else 900)
@@ -1490,7 +1569,7 @@ def replay(rec):
 
 CLAIM = {
     "tech": "Coq proof: generic theorems over a small setter/getter language (model/Props.v) for ALL values and ALL well-formed element states, instantiated on a catalogue of the public properties whose attribute codecs are the translated simple-type code of C11; exact correspondence of the extracted model on random assignment histories (fresh objects + corpus decks); direct oracle incl. save + re-open",
-    "text": "C09_get_set / C09_none / C09_reject / C09_frame / C09_history are proved for every state and value; the catalogue (model/PropCatalogue.v) instantiates them for the public properties, with value domains and quanta taken from gen/GenC11.v; C09_catalogue_complete forces every settable property (regenerated from /repo each run) into the catalogue or the committed oracle-only list. The check compares the model's exact predicted outcome, read-back and element state with the implementation over random histories and runs the property's statement directly (read-after-write, re-open, None, rejection leaves XML unchanged, sibling readings unchanged).",
+    "text": "C09_get_set / C09_none / C09_reject / C09_frame / C09_history are proved for every state and value (placeholder geometry, whose setter reads the base placeholder and writes the displaced dimensions back, by C09_frame_placeholder / C09_get_set_placeholder over the Keep constructor); the catalogue (model/PropCatalogue.v) instantiates them for the public properties, with value domains and quanta taken from gen/GenC11.v; C09_catalogue_complete forces every settable property (regenerated from /repo each run) into the catalogue or the committed oracle-only list. The check compares the model's exact predicted outcome, read-back and element state with the implementation over random histories and runs the property's statement directly (read-after-write, re-open, None, rejection leaves XML unchanged, sibling readings unchanged).",
     "note": "proxy-level plumbing is hand-transcribed (tied by correspondence); oracle-only properties are not covered by a theorem; quantum bounds are proved for EMU, centipoints, percentages and rotation, the other float conversions are checked bit-exactly only; reject-with-unchanged-state is REFUTED by the model for the setters that mutate before validating (witness theorems + replay); save/re-open relies on lxml.",
     "ref": "6/C09",
 }
